@@ -56,7 +56,7 @@ func Supervise(prop string, a lib.Args, limit time.Duration, work func()) {
 	}
 	res.Violate(lib.Violation{Clause: "server-survives", Case: -1, Key: "server-survives:process",
 		Detail: fmt.Sprintf("%s (%v) while running the case in the replay", what, err), Replay: prog})
-	lib.WriteShards(a.Out, Header(prop), "case", nil, res.ShardSize)
+	WriteShards(a.Out, prop, nil, res.ShardSize)
 	res.Write(a.Out)
 }
 
